@@ -310,6 +310,28 @@ thread_local! {
     static CONSOLE: std::cell::RefCell<Option<std::fs::File>> = std::cell::RefCell::new(None);
 }
 
+/// Fault injection on the console: while `on`, the process's stdout is /dev/full, so every write of the emulator's
+/// own output fails with ENOSPC (what a full disk, or a closed pipe with EPIPE, does to it).
+pub fn console_fault(on: bool) {
+    use std::os::unix::io::AsRawFd;
+    let _ = std::io::stdout().flush();
+    if on {
+        if let Ok(f) = std::fs::OpenOptions::new().write(true).open("/dev/full") {
+            unsafe {
+                dup2(f.as_raw_fd(), 1);
+            }
+        }
+    } else {
+        CONSOLE.with(|c| {
+            if let Some(f) = c.borrow().as_ref() {
+                unsafe {
+                    dup2(f.as_raw_fd(), 1);
+                }
+            }
+        });
+    }
+}
+
 /// Drop whatever is in the capture file (called after every run so that it never grows).
 pub fn console_discard() {
     let _ = std::io::stdout().flush();
